@@ -45,6 +45,10 @@ func v2KeySchema(op J) ([]types.KeySchemaElement, []types.AttributeDefinition) {
 			defs = append(defs, types.AttributeDefinition{AttributeName: aws.String(str(r, "name")), AttributeType: types.ScalarAttributeType(str(r, "type"))})
 		}
 	}
+	if b, ok := op["range_first"].(bool); ok && b && len(ks) == 2 {
+		// the same schema, listed RANGE element first
+		ks[0], ks[1] = ks[1], ks[0]
+	}
 	return ks, defs
 }
 
@@ -173,6 +177,9 @@ func (s *session) runV2(name string, op J) J {
 		if b, ok := op["return_old"].(bool); ok && b {
 			pin.ReturnValues = types.ReturnValueAllOld
 		}
+		if has(op, "rv") {
+			pin.ReturnValues = types.ReturnValue(str(op, "rv")) // any other value: nothing is returned
+		}
 		o, err := cl.PutItem(ctx, pin)
 		r := res(err)
 		var cf *types.ConditionalCheckFailedException
@@ -211,6 +218,9 @@ func (s *session) runV2(name string, op J) J {
 			ReturnValuesOnConditionCheckFailure: types.ReturnValuesOnConditionCheckFailureAllOld}
 		if b, ok := op["return_old"].(bool); ok && b {
 			in.ReturnValues = types.ReturnValueAllOld
+		}
+		if has(op, "rv") {
+			in.ReturnValues = types.ReturnValue(str(op, "rv")) // any other value: nothing is returned
 		}
 		o, err := cl.DeleteItem(ctx, in)
 		r := res(err)
